@@ -31,7 +31,7 @@ def run_demo(d, env):
 def main():
     prop, name, needs = sys.argv[1], sys.argv[2], sys.argv[3]
     keep = "--keep" in sys.argv
-    d = ("/tmp/sm-" if "--round13" in sys.argv else "/tmp/sl-" if "--round12" in sys.argv else "/tmp/sk-" if "--round11" in sys.argv else "/tmp/sj-" if "--round10" in sys.argv else "/tmp/si-" if "--round9" in sys.argv else "/tmp/sh-" if "--round8" in sys.argv else "/tmp/sg-" if "--round7" in sys.argv else "/tmp/sf-" if "--round6" in sys.argv else "/tmp/se-" if "--round5" in sys.argv else "/tmp/sd-" if "--round4" in sys.argv else "/tmp/sc-" if "--round3" in sys.argv else "/tmp/sb-" if "--round2" in sys.argv else "/tmp/sa-") + prop
+    d = ("/tmp/sn-" if "--round14" in sys.argv else "/tmp/sm-" if "--round13" in sys.argv else "/tmp/sl-" if "--round12" in sys.argv else "/tmp/sk-" if "--round11" in sys.argv else "/tmp/sj-" if "--round10" in sys.argv else "/tmp/si-" if "--round9" in sys.argv else "/tmp/sh-" if "--round8" in sys.argv else "/tmp/sg-" if "--round7" in sys.argv else "/tmp/sf-" if "--round6" in sys.argv else "/tmp/se-" if "--round5" in sys.argv else "/tmp/sd-" if "--round4" in sys.argv else "/tmp/sc-" if "--round3" in sys.argv else "/tmp/sb-" if "--round2" in sys.argv else "/tmp/sa-") + prop
     repo = d + "/repo"
     env = dict(os.environ, CARGO_TARGET_DIR=d + "/target", CARGO_NET_OFFLINE="true", RUST_BACKTRACE="0")
     diff = sh("git -C %s diff" % repo).stdout
